@@ -17,6 +17,12 @@ let mk = ref maxkeys
 let mi = ref maxids
 (* objects: live dataset, rewrite, shrinklog, shrinking flag; hooks: registry, hooks phase, log *)
 let r : run ref = ref (idle [])
+(* the content of the open log file and s.aofbuf, object commands only (Model/ShrinkBuf.v); every
+   transition of the object side goes through the extracted bstep with the proved final_ops *)
+let bfile : cmd list ref = ref []
+let bbuf : cmd list ref = ref []
+let bs () = { b_run = !r; b_file = !bfile; b_buf = !bbuf }
+let bdo e = let b = bstep !mk !mi final_ops (bs ()) e in r := b.b_run; bfile := b.b_file; bbuf := b.b_buf
 let hr : hrun ref = ref (hrun_init [])
 (* the shrinklog in arrival order (object and hook commands interleaved; FLUSHDB once) *)
 let merged : Stdlib.String.t list ref = ref []
@@ -106,15 +112,17 @@ let cp_name = function
 
 let present = function Some _ -> "1" | None -> "0"
 
-let reset () = r := idle []; hr := hrun_init []; merged := []
+let reset () = r := idle []; hr := hrun_init []; merged := []; bfile := []; bbuf := []
 
 let outcome_str = function
   | Updated -> "updated" | NotUpdated -> "notupdated" | ErrKeyNotFound -> "err:keynotfound" | ErrIdNotFound -> "err:idnotfound"
 
-(* an object command; hooks are untouched *)
-let do_w c =
+(* an object command; hooks are untouched.  flush: the connection's packet ends here, its pre-write
+   step writes the buffer to the open file before the reply goes out *)
+let do_w ?(flush = true) c =
   let (_, o) = exec !r.r_live c in
-  r := do_ev !mk !mi !r (W c);
+  bdo (BE (W c));
+  if flush then bdo BFlush;
   if !r.r_shrinking && logged o then merged := cmd_str c :: !merged;
   outcome_str o
 
@@ -150,6 +158,26 @@ let handle (toks : Stdlib.String.t list) : Stdlib.String.t =
        | Some c -> do_w c
        | None -> (match parse_hcmd rest with Some c -> do_h c | None -> "?bad command"))
   (* an AOFSHRINK request: starts a rewrite, or is ignored while one is running *)
+  (* a command of a packet that is still being processed: it stays in the write buffer *)
+  | "wb" :: rest ->
+      (match parse_cmd rest with
+       | Some c -> do_w ~flush:false c
+       | None -> "?bad command")
+  | ["flush"] -> bdo BFlush; "ok"
+  (* the final section of the running rewrite and its epilogue *)
+  | ["final"] ->
+      if !r.r_shrinking && sh_done !r.r_sh && gate () = "final - -" then (bdo BFinal; merged := []; "ok") else "?not at the final section"
+  | ["bfile"] -> cmds_str !bfile
+  | ["bbuf"] -> cmds_str !bbuf
+  | ["breplayed"] -> dump (replay (blog (bs ())) [])
+  (* bufat <cpname>: how many of n pending commands are still buffered after a crash there *)
+  | ["bufat"; name] ->
+      (match Stdlib.List.filter (fun c -> cp_name c = name) all_cpoints with
+       | [c] ->
+           let fi = { f_live = []; f_pend = [CFlushdb]; f_snap = []; f_slog = [] } in
+           let (_, buf) = crash_atb fi c in
+           (match buf with [] -> "empty" | _ -> "pending")
+       | _ -> "?bad crash point")
   | ["req"] -> if !r.r_shrinking then (r := do_ev !mk !mi !r Req; "ignored") else (start_rewrite (); "started " ^ gate ())
   | ["begin"] -> if !r.r_shrinking then "?already shrinking" else (start_rewrite (); gate ())
   | ["gate"] -> gate ()
